@@ -105,19 +105,48 @@ Proof. intros <-. rewrite firstn_app, Nat.sub_diag, firstn_all. cbn. apply app_n
 Lemma skipn_app_exact {A} (a b : list A) n : length a = n -> skipn n (a ++ b) = b.
 Proof. intros <-. rewrite skipn_app, Nat.sub_diag, skipn_all. reflexivity. Qed.
 
+(* a source address as ares_conn_set_self_ip leaves it: AF_INET (4 address bytes, the rest of the
+   zeroed union untouched) or AF_INET6 (16 bytes) *)
 Definition ip_known (a : addr) : Prop :=
-  (a_family a = AF_INET \/ a_family a = AF_INET6) /\ length (a_data a) = 16%nat.
+  (a_family a = AF_INET \/ a_family a = AF_INET6) /\ length (a_data a) = 16%nat /\
+  (a_family a = AF_INET -> skipn 4 (a_data a) = repeat 0 12).
 
 Lemma addr_equal_refl a : ip_known a -> addr_equal a a = true.
 Proof.
   intros [[H | H] _]; unfold addr_equal; rewrite Z.eqb_refl, H; cbn; apply bytes_eqb_refl.
 Qed.
 
-Lemma addr_equal_same a b : ip_known a -> addr_equal a b = addr_same a b.
+Lemma bytes_eqb_app_same z : forall x y, length x = length y -> bytes_eqb (x ++ z) (y ++ z) = bytes_eqb x y.
 Proof.
-  intros [[H | H] _]; unfold addr_equal, addr_same; rewrite H;
-    destruct (_ =? a_family b); reflexivity.
+  induction x as [| a x IH]; intros [| b y] L; cbn in *; try discriminate.
+  - apply bytes_eqb_refl.
+  - rewrite IH by lia. reflexivity.
 Qed.
+
+(* on source addresses the code's comparison is plain equality of (family, bytes) *)
+Lemma addr_equal_same a b : ip_known a -> ip_known b -> addr_equal a b = addr_same a b.
+Proof.
+  intros (Fa & La & Ta) (Fb & Lb & Tb). unfold addr_equal, addr_same.
+  destruct (a_family a =? a_family b) eqn:E; cbn [negb andb]; [| reflexivity].
+  apply Z.eqb_eq in E.
+  destruct Fa as [Fa | Fa]; rewrite Fa.
+  - change (AF_INET =? AF_INET) with true. cbn iota.
+    rewrite <- (firstn_skipn 4 (a_data a)) at 2. rewrite <- (firstn_skipn 4 (a_data b)) at 2.
+    rewrite (Ta Fa), (Tb (eq_trans (eq_sym E) Fa)). symmetry. apply bytes_eqb_app_same.
+    rewrite !firstn_length, La, Lb. reflexivity.
+  - reflexivity.
+Qed.
+
+Lemma addr_same_iff a b : addr_same a b = true <-> a = b.
+Proof.
+  destruct a as [fa da], b as [fb db]. unfold addr_same. cbn. split.
+  - intros H. apply andb_prop in H as [H1 H2]. apply Z.eqb_eq in H1. apply bytes_eqb_eq in H2. subst. reflexivity.
+  - intros H. inversion H. rewrite Z.eqb_refl, bytes_eqb_refl. reflexivity.
+Qed.
+
+(* ares_addr_equal decides equality of source addresses *)
+Lemma addr_equal_iff a b : ip_known a -> ip_known b -> (addr_equal a b = true <-> a = b).
+Proof. intros Ka Kb. rewrite (addr_equal_same a b Ka Kb). apply addr_same_iff. Qed.
 
 Lemma addr_equal_zero a : ip_known a -> addr_equal a addr_zero = false.
 Proof. intros [[H | H] _]; unfold addr_equal; rewrite H; reflexivity. Qed.
@@ -239,27 +268,27 @@ Qed.
 
 (* the monitor's verdict and next state when a freshly generated cookie (no server part) is sent
    and a rotation is justified *)
-Lemma mon_apply_fresh g q ip now r :
-  length r = 8%nat ->
+Lemma mon_apply_fresh g q ip now rnd :
+  length (rnd 0%nat) = 8%nat ->
   (g_reset_ok g || (g_sup g && match g_nocookie g with Some t => elapsed_ge t now COOKIE_REGRESSION_TIMEOUT_MS | None => false end)
    || is_none (g_last g) || negb (addr_same ip (g_ip g))
    || ((g_sup g && negb (g_sup g && match g_nocookie g with Some t => elapsed_ge t now COOKIE_REGRESSION_TIMEOUT_MS | None => false end))
        && elapsed_ge (g_since g) now COOKIE_CLIENT_TIMEOUT_MS)) = true ->
-  mon_apply g q ip now false (OptCookie (r ++ [])) =
-  (mkG (Some r) ip now false []
+  mon_apply g q ip now rnd false (OptCookie (rnd 0%nat ++ [])) =
+  (mkG (Some (rnd 0%nat)) ip now false []
        (g_sup g && negb (g_sup g && match g_nocookie g with Some t => elapsed_ge t now COOKIE_REGRESSION_TIMEOUT_MS | None => false end))
        (if g_sup g && match g_nocookie g with Some t => elapsed_ge t now COOKIE_REGRESSION_TIMEOUT_MS | None => false end
         then None else g_nocookie g)
-       (upd (g_req g) q (OptCookie (r ++ []))) (g_bad g), []).
+       (upd (g_req g) q (OptCookie (rnd 0%nat ++ []))) (g_bad g), []).
 Proof.
   intros L H. unfold mon_apply.
   rewrite app_nil_r.
-  assert (Z8 : zlen r = 8) by (unfold zlen; rewrite L; reflexivity).
+  assert (Z8 : zlen (rnd 0%nat) = 8) by (unfold zlen; rewrite L; reflexivity).
   rewrite Z8. cbn [Z.ltb Z.compare].
-  rewrite (firstn_all2 r) by lia.
-  rewrite (skipn_all2 r) by lia.
+  rewrite (firstn_all2 (rnd 0%nat)) by lia.
+  rewrite (skipn_all2 (rnd 0%nat)) by lia.
+  rewrite bytes_eqb_refl. cbn [orb negb]. rewrite andb_false_r. cbn [app].
   set (regress := g_sup g && match g_nocookie g with Some t => elapsed_ge t now COOKIE_REGRESSION_TIMEOUT_MS | None => false end) in *.
-  set (rot := g_reset_ok g || regress || is_none (g_last g) || negb (addr_same ip (g_ip g)) || (g_sup g && negb regress && elapsed_ge (g_since g) now COOKIE_CLIENT_TIMEOUT_MS)) in *.
   rewrite H. cbn [negb andb orb app bytes_eqb].
   rewrite andb_false_r. reflexivity.
 Qed.
@@ -381,12 +410,12 @@ Proof.
 Qed.
 
 (* the cookie that is currently live is sent again *)
-Lemma mon_apply_same g q ip now p :
+Lemma mon_apply_same g q ip now rnd p :
   length p = 8%nat -> g_last g = Some p -> g_reset_ok g = false ->
   (g_sup g && match g_nocookie g with Some t => elapsed_ge t now COOKIE_REGRESSION_TIMEOUT_MS | None => false end) = false ->
   addr_same ip (g_ip g) = true ->
   (g_sup g && elapsed_ge (g_since g) now COOKIE_CLIENT_TIMEOUT_MS) = false ->
-  mon_apply g q ip now false (OptCookie (p ++ g_server g)) =
+  mon_apply g q ip now rnd false (OptCookie (p ++ g_server g)) =
   (mkG (g_last g) (g_ip g) (g_since g) false (g_server g) (g_sup g) (g_nocookie g)
        (upd (g_req g) q (OptCookie (p ++ g_server g))) (g_bad g), []).
 Proof.
@@ -481,7 +510,7 @@ Proof.
         rewrite Isup. cbn [orb] in C1. apply orb_true_iff in C1 as [C1 | C1].
         - apply Z.eqb_eq in C1. rewrite C1. reflexivity.
         - apply andb_true_iff in C1 as [C1 _]. apply Z.eqb_eq in C1. rewrite C1. reflexivity. }
-      rewrite mon_apply_fresh; [| apply R |].
+      rewrite (mon_apply_fresh g q ip now rnd); [| apply R |].
       + cbn [fst snd]. split; [reflexivity |]. rewrite Hreg. split; cbn [s_ck s_q].
         * apply invc_fresh; auto. intros; discriminate.
         * apply HQ'; cbn; auto; try discriminate.
@@ -510,7 +539,7 @@ Proof.
                   || ((ck_state ck =? ARES_COOKIE_SUPPORTED) && elapsed_ge (ck_client_ts ck) now COOKIE_CLIENT_TIMEOUT_MS)) eqn:C3.
         * (* rotation: source address changed or client cookie too old *)
           eexists. eexists. split; [reflexivity |]. cbn [mon_step].
-          rewrite mon_apply_fresh; [| apply R |].
+          rewrite (mon_apply_fresh g q ip now rnd); [| apply R |].
           -- cbn [fst snd]. split; [reflexivity |]. rewrite Hreg, C1a. cbn [negb andb]. rewrite andb_true_r. split; cbn [s_ck s_q].
              ++ apply invc_fresh; auto.
              ++ apply HQ'; cbn; auto; try discriminate.
@@ -519,7 +548,7 @@ Proof.
           -- rewrite Hreg, C1a. cbn [negb andb orb]. rewrite andb_true_r.
              destruct (g_reset_ok g) eqn:Er; [reflexivity |]. cbn [orb].
              destruct (Hlivecase eq_refl C1b) as (p & HL & _ & Hts & _ & Hip & Hipk & _).
-             rewrite HL. cbn [is_none orb]. rewrite <- Hip, <- Hts, <- (addr_equal_same ip _ K), Isup. exact C3.
+             rewrite HL. cbn [is_none orb]. rewrite <- Hts, <- (addr_equal_same ip _ K Hipk), <- Hip, Isup. exact C3.
         * (* the live cookie is sent again *)
           apply orb_false_elim in C3 as [C3a C3b]. apply negb_false_iff in C3a.
           assert (Er : g_reset_ok g = false).
@@ -531,14 +560,14 @@ Proof.
           eexists. eexists. split; [reflexivity |]. cbn [mon_step].
           rewrite Hcl, Hsv.
           assert (Lp : length p = 8%nat) by (rewrite <- Hcl; apply W).
-          rewrite (mon_apply_same g q ip now p Lp HL Er).
+          rewrite (mon_apply_same g q ip now rnd p Lp HL Er).
           -- cbn [fst snd]. split; [reflexivity |]. split; cbn [s_ck s_q].
              ++ eapply invc_ext; [constructor; eassumption | cbn; auto ..].
              ++ apply HQ'; cbn; auto.
                 intros c Hc. inversion Hc; subst c. split; [| split; [exact Qtcp | rewrite HL; discriminate]].
                    unfold zlen. rewrite app_length, Lp. lia.
           -- rewrite Hreg. exact C1a.
-          -- rewrite <- Hip, <- (addr_equal_same ip _ K). exact C3a.
+          -- rewrite <- (addr_equal_same ip _ K Hipk), <- Hip. exact C3a.
           -- rewrite Isup, <- Hts. exact C3b. }
   destruct (q_req qr) eqn:Erq.
   - (* no OPT RR *) apply (Hnone NoOpt); auto.
@@ -1112,4 +1141,78 @@ Proof.
   exists unspec_history. split.
   - unfold unspec_history. repeat (constructor; [cbn; unfold tv_ok; cbn; repeat split; auto; try lia |]). constructor.
   - vm_compute. reflexivity.
+Qed.
+
+(* ------------------------------------------------------------------------------------ *)
+(* Source-address changes                                                                 *)
+(* ------------------------------------------------------------------------------------ *)
+Definition live_ok (ck : cookie) : Prop :=
+  wf_cookie ck /\
+  (ck_state ck = ARES_COOKIE_GENERATED \/ ck_state ck = ARES_COOKIE_SUPPORTED) /\
+  (ck_state ck = ARES_COOKIE_SUPPORTED -> ck_unsup_ts ck = tv_zero \/ tv_ok (ck_unsup_ts ck)) /\
+  (ck_state ck = ARES_COOKIE_SUPPORTED -> tv_ok0 (ck_client_ts ck)).
+
+Lemma live_char ck rq ip now rnd :
+  rq <> NoOpt -> ip_known ip -> tv_ok now -> live_ok ck ->
+  cookie_apply ck rq false ip now rnd = Ok (
+    if apply_regress_b ck now
+    then (fresh_ck ARES_COOKIE_GENERATED (rnd 0%nat) now ip tv_zero, OptCookie (rnd 0%nat ++ []), ARES_SUCCESS, 1%nat)
+    else if negb (addr_equal ip (ck_client_ip ck))
+            || ((ck_state ck =? ARES_COOKIE_SUPPORTED) && elapsed_ge (ck_client_ts ck) now COOKIE_CLIENT_TIMEOUT_MS)
+    then (fresh_ck (ck_state ck) (rnd 0%nat) now ip (ck_unsup_ts ck), OptCookie (rnd 0%nat ++ []), ARES_SUCCESS, 1%nat)
+    else (ck, OptCookie (ck_client ck ++ firstn (ck_server_len ck) (ck_server ck)), ARES_SUCCESS, 0%nat)).
+Proof.
+  intros N K T (W & S & U & C).
+  rewrite (apply_udp_char ck rq ip now rnd N K T W U); auto.
+  - destruct S as [S | S]; rewrite S; cbn [Z.eqb]; change (ARES_COOKIE_GENERATED =? ARES_COOKIE_INITIAL) with false;
+      change (ARES_COOKIE_SUPPORTED =? ARES_COOKIE_INITIAL) with false;
+      change (ARES_COOKIE_GENERATED =? ARES_COOKIE_UNSUPPORTED) with false;
+      change (ARES_COOKIE_SUPPORTED =? ARES_COOKIE_UNSUPPORTED) with false;
+      cbn [andb orb]; rewrite !orb_false_r; reflexivity.
+  - intros H. destruct S as [S | S]; rewrite S in H; discriminate.
+  - intros H. destruct S as [S | S]; rewrite S in H; discriminate.
+  - destruct S; auto.
+Qed.
+
+(* an apply from another source address sends a cookie generated at this step (the first random
+   block drawn now) and nothing learned under the old address; the record now belongs to b *)
+Theorem rotation_on_source_change ck rq a b now rnd :
+  rq <> NoOpt -> ip_known a -> ip_known b -> a <> b -> tv_ok now -> live_ok ck -> ck_client_ip ck = a ->
+  exists ck', cookie_apply ck rq false b now rnd = Ok (ck', OptCookie (rnd 0%nat ++ []), ARES_SUCCESS, 1%nat) /\
+    ck_client ck' = rnd 0%nat /\ ck_server_len ck' = 0%nat /\ ck_client_ip ck' = b /\ ck_client_ts ck' = now.
+Proof.
+  intros N Ka Kb Hab T L Ha.
+  rewrite (live_char ck rq b now rnd N Kb T L).
+  assert (E : addr_equal b (ck_client_ip ck) = false).
+  { rewrite Ha. destruct (addr_equal b a) eqn:X; [| reflexivity].
+    apply (addr_equal_iff b a Kb Ka) in X. congruence. }
+  rewrite E. cbn [negb orb].
+  destruct (apply_regress_b ck now); eexists; (split; [reflexivity |]); cbn; auto.
+Qed.
+
+(* ... and the converse: from the same address, with no timer due, the very same cookie is sent and
+   nothing changes *)
+Theorem stable_on_same_source ck rq b now rnd :
+  rq <> NoOpt -> ip_known b -> tv_ok now -> live_ok ck -> ck_client_ip ck = b ->
+  apply_regress_b ck now = false ->
+  ((ck_state ck =? ARES_COOKIE_SUPPORTED) && elapsed_ge (ck_client_ts ck) now COOKIE_CLIENT_TIMEOUT_MS) = false ->
+  cookie_apply ck rq false b now rnd =
+  Ok (ck, OptCookie (ck_client ck ++ firstn (ck_server_len ck) (ck_server ck)), ARES_SUCCESS, 0%nat).
+Proof.
+  intros N Kb T L Hb R A.
+  rewrite (live_char ck rq b now rnd N Kb T L), R, A, Hb, (addr_equal_refl b Kb). reflexivity.
+Qed.
+
+(* every cookie-bearing transmission records the address it was sent from *)
+Lemma apply_records_source ck rq a now rnd ck' c st n :
+  rq <> NoOpt -> ip_known a -> tv_ok now -> live_ok ck -> ip_known (ck_client_ip ck) ->
+  cookie_apply ck rq false a now rnd = Ok (ck', OptCookie c, st, n) -> ck_client_ip ck' = a.
+Proof.
+  intros N Ka T L Kc H. rewrite (live_char ck rq a now rnd N Ka T L) in H.
+  destruct (apply_regress_b ck now); [inversion H; reflexivity |].
+  destruct (addr_equal a (ck_client_ip ck)) eqn:E; cbn [negb orb] in H.
+  - apply (addr_equal_iff a _ Ka Kc) in E.
+    destruct ((ck_state ck =? ARES_COOKIE_SUPPORTED) && elapsed_ge (ck_client_ts ck) now COOKIE_CLIENT_TIMEOUT_MS);
+      inversion H; subst; reflexivity.
+  - inversion H; reflexivity.
 Qed.
